@@ -632,6 +632,12 @@ func (s *Stream) ProcessSync(data map[string]any) (map[string]any, error) {
 		return nil, fmt.Errorf("Synchronous processing is not supported for MATCH_RECOGNIZE queries.")
 	}
 
+	// A stopped stream processes nothing: like Emit, a call after Stop must not
+	// reach the sinks any more.
+	if atomic.LoadInt32(&s.stopped) == 1 {
+		return nil, fmt.Errorf("stream has been stopped")
+	}
+
 	// Directly process data and return result. processDirectDataSync applies the
 	// filter after JOIN enrichment so WHERE can reference joined columns.
 	return s.processDirectDataSync(data)
